@@ -27,6 +27,9 @@ OTHER_SHAPES = {
     "two": {"seqid": "s1", "biotype": "gene"},
     "in-list": {"biotype": ["gene", "cds"]},
     "in-tuple+eq": {"name": ("a", "b", "c"), "strand": "-"},
+    # unset (None) filters are passed through by subset(): they must contribute nothing
+    "all-none": {"seqid": None, "biotype": None},
+    "none+str": {"seqid": None, "biotype": "gene", "name": None},
 }
 
 
@@ -146,7 +149,7 @@ def job_matching(chk, has_s, has_e, partial, shape):
     hooks = ClassHooks(funcs, set())
     S, E, rs, re_ = z3.Ints("S E rs re")
     cond = {k: (list(v) if isinstance(v, list) else v) for k, v in OTHER_SHAPES[shape].items()}
-    n_expected = sum(len(v) if isinstance(v, (list, tuple)) else 1 for v in cond.values())
+    n_expected = sum(len(v) if isinstance(v, (list, tuple)) else 1 for v in cond.values() if v is not None)
     if has_s:
         cond["start"] = S
     if has_e:
@@ -179,8 +182,10 @@ def job_matching(chk, has_s, has_e, partial, shape):
             formula = ps.parse()
             nph, atoms = ps.placeholders, ps.atoms
         except ValueError as ex:
-            chk.obligation(f"{base}/post", "post", lambda: ("refuted", "syntactic", 0.0, None, f"WHERE clause not in grammar: {ex}: {sql!r}"),
-                           function=fn, key=f"C17/{fn}/grammar")
+            msg = f"WHERE clause is not well-formed SQL of the expected grammar: {ex}: {sql!r}"
+            chk.obligation(f"{base}/post", "post",
+                           lambda msg=msg: ("refuted", "syntactic", 0.0, {"S": 2, "E": 8, "rs": 2, "re": 5}, msg),
+                           function=fn, key=f"C17/{fn}/grammar", replayer=_replay_subset_none)
             return
     spec = z3.And(*atoms, spec_window(rs, re_, S, E, has_s, has_e, partial)) if atoms else \
         spec_window(rs, re_, S, E, has_s, has_e, partial)
@@ -218,6 +223,18 @@ def _replay(has_s, has_e, partial, shape):
                 "description": f"record span ({rs},{re_}) query start={S if has_s else None} stop={E if has_e else None} "
                                f"allow_partial={partial}: returned {got} records, linear scan selects {want}"}
     return rep
+
+
+def _replay_subset_none(model):
+    from cogent3.core.annotation_db import BasicAnnotationDb
+    db = BasicAnnotationDb()
+    db.add_feature(seqid="s1", biotype="gene", name="g1", spans=[(2, 5)])
+    try:
+        got = len(db.subset(start=2, stop=8))
+        return {"failed": got != 1, "description": f"db.subset(start=2, stop=8) on one record (2,5) -> {got} records"}
+    except Exception as e:
+        return {"failed": True, "witness": "db.subset(start=2, stop=8)",
+                "description": f"BasicAnnotationDb with one feature (2,5): db.subset(start=2, stop=8) raises {type(e).__name__}: {e}"}
 
 
 def dispatch(chk, jobname, args):
